@@ -11,7 +11,8 @@ for d in sorted(glob.glob(os.path.join(V, "seeded", "*"))):
     c = m.get("checks", {}).get(m["property"], {})
     subs = sorted({l.split("]")[0].strip(" [").split("/")[0] for l in c.get("first", []) if l.strip().startswith("[")})
     h = m.get("history", "")
-    hist = ("neutralised by a repair of the tree (" + m["neutralised_by"] + "): no longer property-breaking; caught on the tree before it" if m.get("neutralised_by")
+    hist = ("not caught by its own property's check: masked by known finding " + m["masked_by_known_finding"] + "; caught by " + ", ".join(m.get("caught_by", [])) if m.get("masked_by_known_finding")
+            else "neutralised by a repair of the tree (" + m["neutralised_by"] + "): no longer property-breaking; caught on the tree before it" if m.get("neutralised_by")
             else "initially MISSED, caught after strengthening" if h.startswith("MISSED") else "not caught - by design (undocumented threshold, property still holds)" if h.startswith("NOT CAUGHT")
             else "caught" if m.get("caught_by") else "MISSED")
     rows.append(f"| {name} | {m.get('what','')[:150]} | {m.get('needs_to_manifest','')[:170]} | {hist} | {', '.join(subs)} |")
